@@ -71,6 +71,7 @@ def run_k(cfg):
     head = cfg.get('head', 0)
 
     off = 1 if cfg.get('raw_prior') else 0
+    stalled = []
 
     def plan(i, req, now):
         if off and i == 0:
@@ -82,6 +83,14 @@ def run_k(cfg):
                 full = wire.tcp_read_resp(req[:2], 0xF7, bytes(250)) if framing == 'tcp' else wire.rtu_read_resp(0xF7, bytes(250))
                 return [(D0, ('data', full[:head])), (2 * D0, ('data', exc_frame(framing, kind, code, req)))]
             f = exc_frame(framing, kind, code, req)
+            if cfg.get('stall'):
+                # the embedding application blocks the event loop (a slow callback) from just after this transmission until
+                # `stall` timeouts later: when the loop runs again the exception frame sits in the socket AND the request's
+                # timer is due - the frame arrived in time and is what ends the request
+                def block():
+                    stalled.append(loop.kern.now + cfg['stall'] * T)
+                    loop.kern.now = stalled[-1]
+                loop.call_later(D0 / 2, block)
             if cfg.get('mbap') and framing == 'tcp':
                 # GoodWe firmware fills the MBAP length field unreliably (the library ignores it on purpose for data answers)
                 ln = {'zero': 0, 'echo6': 6, 'plus7': len(f) - 6 + 7, 'minus1': len(f) - 7}[cfg['mbap']]
@@ -116,6 +125,8 @@ def run_k(cfg):
         vio.append(('no-retransmission', f'{len(peer.sent)} transmissions, exception answered #{k + 1}'))
     if peer.sent and len(peer.sent) > k:
         arrival = peer.sent[k][0] + (2 * D0 if head else D0)
+        if stalled:
+            arrival = max(arrival, stalled[-1])
         if abs(t1 - arrival) > TOL:
             vio.append(('immediate', f'completed {t1 - arrival:.6f} after the exception frame arrived'))
     if any('Exception in callback' in c.get('message', '') for c in loop.unhandled):
@@ -141,6 +152,8 @@ def job(cfgs):
                 cls += '/after-raw-command-with-the-same-bytes'
             if cfg.get('host'):
                 cls += '/host-given-as-a-name'
+            if cfg.get('stall'):
+                cls += '/event-loop-blocked-past-the-timeout'
             if cfg.get('mbap'):
                 cls += f"/unreliable-length-field:{cfg['mbap']}"
             if not any(c == clause for c, _ in v2):
@@ -403,6 +416,15 @@ def run(tier, seed, rep):
                     for k in (0, 1):
                         for host in ('inverter.local', '10.0.2'):
                             cfgs.append(dict(transport=tr, ka=ka, T=1, R=1, k=k, kind=kind, code=code, host=host))
+    # the event loop is blocked while the exception frame arrives, until after the request's timer is due
+    for tr in ('udp', 'tcp'):
+        for ka in (False, True):
+            for kind in KINDS:
+                for code in (1, 2, 6, 0x55):
+                    for R in (0, 2):
+                        for k in range(0, R + 1):
+                            for stall in (1.0, 1.2, 2.5):
+                                cfgs.append(dict(transport=tr, ka=ka, T=1, R=R, k=k, kind=kind, code=code, stall=stall))
     # a pending fragment of a read answer must not swallow the exception frame
     for tr in ('udp', 'tcp'):
         for ka in (False, True):
